@@ -137,20 +137,20 @@ ADDENDA = {
            "clauses of C09 (as C02.h), because caller sets are key-of-set entries. Round 5: epoch read under the phase lock (C04.a as C02.j); KNOWN FINDING K3 (C02.i: the undo token of register_callee belongs to the call, not to the registration).",
     "C03": "Later clause: no Recompute is reachable from a Cleaned / NoNeed answer of a callee check (only a changed value forces re-execution). Round 5: observations of every callee survive a clean verification (C01.s as C03.k).",
     "C04": "Later clauses: a session starts uncommitted and only commit() sets the flag; the phase lock is acquired only by Engine::tracked / snapshot_graph_from, the session guard only by Engine::input_session. Round 5: every guarded() tail of the reader phase owns an ActiveComputationGuard (C04.h, D13); the session's propagation starts from an empty visited set (C01.p as C04.i).",
-    "C05": "Later clauses: defuse disarms / new arms the undo tokens; Guard::drop reaches take()+spawn on EVERY path (no early exit); the join of parallel repair chunks lowers the flag only on Ok(Cleaned) (as C05.f); abort_callee removes on both arms (as C05.g). Round 5: KNOWN FINDING K3 as C05.h.",
-    "C06": "Later clauses: register_callee registers on every path; the probe marks the start false; the Result of a callee's repair is inspected before its stored info is read (D9). Round 5: edge-role / arm-symmetry clauses of set_computed (C01.c as C06.i).",
-    "C07": "Later clauses: QueryKind::Input is written exactly for explicit inputs (set_input/update true, refresh false); batch coalescing / staging clauses of C09 (as C07.f). Round 5: the interned-handle decode clauses (C15.c, C15.a as C07.g).",
+    "C05": "Later clauses: defuse disarms / new arms the undo tokens; Guard::drop reaches take()+spawn on EVERY path (no early exit); the join of parallel repair chunks lowers the flag only on Ok(Cleaned) (as C05.f); abort_callee removes on both arms (as C05.g). Round 5: KNOWN FINDING K3 as C05.h. No detached helper tasks on the query side (C05.i).",
+    "C06": "Later clauses: register_callee registers on every path; the probe marks the start false; the Result of a callee's repair is inspected before its stored info is read (D9). Round 5: edge-role / arm-symmetry clauses of set_computed (C01.c as C06.i). The repairing caller introduces itself under its own id (C06.l); no observation for a caller already on a cycle (C06.j, D15); KNOWN FINDING K5 (C06.k: the SCC mark of the repair phase reaches the executor).",
+    "C07": "Later clauses: QueryKind::Input is written exactly for explicit inputs (set_input/update true, refresh false); batch coalescing / staging clauses of C09 (as C07.f). Round 5: the interned-handle decode clauses (C15.c, C15.a as C07.g). InputSession::commit runs inside its guarded block (C07.h).",
     "C09": "Later clauses: in-memory insert reaches the set on every path; every scanned member is inserted before the loader may spill; a message for the staging log is applied or deferred, never dropped; "
-           "every filtered source of the merging reader is re-polled after a rejected member (D10). Round 5: the committer's consume-before-notify clauses (C10.a as C09.j).",
-    "C10": "Later clauses: a popped batch is consumed before it is listed for notification; the committer drains until nothing is ready; each backend commit is exactly one store write on every path (C08.d/e as C10.g).",
-    "C11": "Later clauses: operations of one batch are applied in issue order; consume replays every recorded operation; the serializer's raw-read and varint-reader clauses (C12.l, C12.k as C11.h), since both backends decode every stored byte with them.",
+           "every filtered source of the merging reader is re-polled after a rejected member (D10). Round 5: the committer's consume-before-notify clauses (C10.a as C09.j). An unpinned entry only is evicted (C16.a as C09.l); a store member is taken out of the staged additions before it is yielded (D16); KNOWN FINDINGS K4 (C09.k: cold load vs concurrent write of a key-of-set entry) and K7 (C09.m: late cache fill of the wide-column cache).",
+    "C10": "Later clauses: a popped batch is consumed before it is listed for notification; the committer drains until nothing is ready; each backend commit is exactly one store write on every path (C08.d/e as C10.g). expected_epoch moves only by one, in process_pending_commits (C10.h).",
+    "C11": "Later clauses: operations of one batch are applied in issue order; consume replays every recorded operation; the serializer's raw-read and varint-reader clauses (C12.l, C12.k as C11.h), since both backends decode every stored byte with them. The prefix extractor's domain has no upper bound (C11.i).",
     "C12": "Later clauses: both halves of as_slices are consumed; decoded BitVec cut to the bit length; the four varint readers are the same loop up to the width, return on the clear-0x80 edge, mask 0x7f, step 7 (C12.k); "
            "no read_exact in a loop targets the whole / a prefix of a loop-carried result buffer, read_raw_bytes sizes its buffer by len (C12.l); the interner's double-checked insertion (C15.a, as C12.f). D11: a bit vector's raw storage is read only after force_align on the same local or under a head-offset guard (C12.m).",
-    "C13": "Later clauses: every field of every hand-written StableHash impl is hashed (table), every impl feeds the hasher. Round 4: no raw-storage read of a bit vector in a hash (C13.c, shared with C12.m).",
-    "C08": "Round 4: the epoch a reopened engine starts from is stored with the session's batch and reloaded (C07.d as C08.g).",
+    "C13": "Later clauses: every field of every hand-written StableHash impl is hashed (table), every impl feeds the hasher. Round 4: no raw-storage read of a bit vector in a hash (C13.c, shared with C12.m). A length prefix is written for every length (also as C14.h); Path hashes its components (C13.f, D17).",
+    "C08": "Round 4: the epoch a reopened engine starts from is stored with the session's batch and reloaded (C07.d as C08.g). The pending-projection marker is cleared last (C08.h).",
     "C14": "Round 4: every site of one column family asks for the same column kind, both backends (C11.d as C14.g).",
     "C15": "Round 4: unordered collections hash order-independently and no hash reads addresses / layout / raw storage (C13.b, C13.c as C15.d).",
-    "C16": "Later clauses: on_write polarity, unpin leaves the Pinned region. D12: a region head is unwrapped only under a test of that region's own length (C16.f).",
+    "C16": "Later clauses: on_write polarity, unpin leaves the Pinned region. D12: a region head is unwrapped only under a test of that region's own length (C16.f). The maintenance flag's protocol (C16.g); the refused key is the parked key (C16.h); the trim loop continues past pinned keys (C16.i, D18).",
 }
 for k_, v_ in ADDENDA.items():
     t_ = CLAIMED[k_]
@@ -194,7 +194,7 @@ m = {
     "not_applicable": [{"property_id": i, "reason": NOT_YET} for i in ids if i not in CLAIMED],
     "notes": "Technique family: static analysis only (no execution of the engine). quick = all rules on the RocksDB-free build shape (plus the shapes a rule names itself); "
              "thorough = quick plus a second pass of every rule on the full workspace build (default features, integration-test crate). See DESIGN.md. "
-             "Fixed defects (D1-D13) and the known findings K1-K3 (recorded, not repaired; printed as KNOWN-FINDING lines, exit 0) are in known_findings.json and DESIGN.md sections 6 / 6b.",
+             "Fixed defects (D1-D18) and the known findings K1, K2, K4, K5, K7 (recorded, not repaired; printed as KNOWN-FINDING lines, exit 0) are in known_findings.json and DESIGN.md sections 6 / 6b.",
 }
 json.dump(m, open(os.path.join(HERE, "MANIFEST.json"), "w"), indent=1)
 print("claimed:", [c["property_id"] for c in checks])
